@@ -36,6 +36,10 @@ def root_scalar(it, args, kwargs):
     site = it.callstack[-1] if it.callstack else ""
     ev = dict(kind="root_scalar", site=site, f=f, a=None, b=None, fa=None, fb=None, xtol=kwargs.get("xtol"),
               rtol=kwargs.get("rtol"), method=method, x0=kwargs.get("x0"), x1=kwargs.get("x1"), pc_len=len(it.pc))
+    # ghost evaluation at an unconstrained argument: what function the root finder is given
+    k = sum(1 for e in it.events if e.get("kind") == "root_scalar")
+    g = it.fresh_real(f"rs{k}_generic")
+    ev.update(generic_x=g, generic_f=it.call(f, [g] + extra, {}))
     if bracket is not None:
         it.assumed.append(ASSUMED["root_scalar"])
         a, b = [norm(x) for x in it.iterate(bracket)]
